@@ -615,7 +615,8 @@ class BaseOrganization(object, metaclass=abc.ABCMeta):
         for workplace in self.workplace_list:
             workplace.insert_absence_time_list(absence_time_list)
         for step_time in sorted(absence_time_list):
-            self.cost_list.insert(step_time, 0.0)
+            if step_time < len(self.cost_list):
+                self.cost_list.insert(step_time, 0.0)
 
     def print_log(self, target_step_time):
         """
